@@ -64,6 +64,7 @@ class Check:
         self.foreign_notes = set()
         self.extra = {}
         self.shapes = set()       # (op, status, dependency-call shape) of every call recorded from the code
+        self.outcomes = {}        # (op, status) -> number of calls recorded from the code
         self.level = "model_checking"
         self.rule = ""
         self.exhaustive = None
@@ -155,6 +156,8 @@ class Check:
                 elif cur_op and line.startswith('{"e":"Ret"'):
                     m = re.search(r'"st":(\d+)', line[:200])
                     self.shapes.add((cur_op, int(m.group(1)) if m else 0, tuple(shape)))
+                    key = "%s:%s" % (cur_op, m.group(1) if m else "-")
+                    self.outcomes[key] = self.outcomes.get(key, 0) + 1
                     cur_op = None
                 if line.startswith('{"e":"Reset"'):
                     resets.append((i, json.loads(line)["name"]))
@@ -231,6 +234,13 @@ class Check:
                                    script=ex.script(), reject=reject, note=ex.note))
         self.violations.append((p, "%s: %s" % (ex.name, reject)))
 
+    def require_outcomes(self, keys):
+        """Vacuity guard: the check is only meaningful if these (operation:status) outcomes were actually
+        produced by the library in this run; otherwise the run is an infrastructure failure, not a pass."""
+        missing = [k for k in keys if not self.outcomes.get(k)]
+        if missing and not self.violations:
+            self.infra.append("vacuous run: the library never produced the outcomes %s" % missing)
+
     def write_replay(self, obj):
         os.makedirs(REPLAYS, exist_ok=True)
         body = json.dumps(obj, indent=1)
@@ -254,6 +264,7 @@ class Check:
             trace_events=self.events,
             models=self.models,
             checker_cmd="java -cp tla2tools.jar tlc2.TLC (TLC 1.8.0), PolyseedTrace.tla / Theorems*.tla / PolyseedMC.tla",
+            outcome_coverage=dict(sorted(self.outcomes.items())),
             foreign_observations=sorted(self.foreign_notes),
             known_findings=self.known_hits,
             notes=self.notes,
